@@ -6,7 +6,11 @@ _m(
     "Hypothesis draws histories (1..20 steps) over the real module-level store: set (mapping / keyword '__' / mixed forms, 1-3 items, "
     "dotted keys, leaf values or nested-mapping values at interior paths), update_defaults (nested mappings), refresh, with-blocks "
     "(optionally nested, optionally left through an exception) and device requests (31 unavailable/malformed incl. torch.device objects of non-cpu backends, 4 cpu forms; via "
-    "set_device / set mapping / set kwargs / update_defaults / with).  Keys come from a fixed 3-level schema of 19 paths (own keys and "
+    "set_device / set mapping / set kwargs / update_defaults / with).  One history in three focuses on one subtree (3 of 4 keys drawn inside it); interior keys may be set to None (an empty yaml "
+    "section) and entries that would assign below a None / scalar are skipped; with-blocks often carry two entries whose dotted names are "
+    "string-prefix related (alpha / alpha_2, grp_a.sub / grp_a.sub_x); a template stratum interleaves random steps with the ordered chain "
+    "'section key = None -> update_defaults fills it with a nested section -> set deep inside -> refresh'.  Keys come from a fixed 3-level "
+    "schema of 23 paths (own keys and "
     "real default keys such as viz.cmap, cupy.fft-cache-size) with every component spelled all-'-' or all-'_' at random.  After every "
     "step every schema path is read with get() in both spellings (+ get(key, default)) and the whole store is compared with a "
     "reference model.  A history is NON-TRIVIAL when it contains an update_defaults after a set on the same path followed by a "
